@@ -1,7 +1,7 @@
 SPECIFICATION TSpec
 CONSTANTS
   Programs <- GenPrograms
-  KF <- KFAll
+  KF <- KFOpen
   MaxCalls = 1000
 CONSTRAINT HW
 INVARIANT NotAccepted
